@@ -24,6 +24,10 @@ def make_row(hs, label):
         return {'id': hs.Ref('r')}
     if label == 'RD':
         return {'id': hs.Ref('r', 'dis')}
+    if label == 'Z0':
+        return {'id': 0}
+    if label == 'ZE':
+        return {'id': ''}
     if label == 'L':
         return {'x': [1.0]}
     if label == 'n5':
@@ -47,6 +51,10 @@ def row_label(hs, row):
     if 'id' not in row:
         return 'E'
     i = row['id']
+    if i == '' and isinstance(i, str):
+        return 'ZE'
+    if i == 0 and isinstance(i, int) and not isinstance(i, bool):
+        return 'Z0'
     if i == 'a':
         return 'A'
     if i == 'b':
@@ -107,7 +115,7 @@ class GridSpec(H.Spec):
 
     # ---- alphabet ------------------------------------------------------------------------------
     def lookup_keys(self):
-        return ['a', 'b', 'zz', '7', '@r', "@r 'dis'", 'Ref:r', 'Ref:r:dis']
+        return ['a', 'b', 'zz', '7', '@r', "@r 'dis'", 'Ref:r', 'Ref:r:dis', '0', '']
 
     def ops(self, g, model):
         n = len(model)
@@ -389,7 +397,12 @@ class GridSpec(H.Spec):
             hidden = tuple(sorted(ent))
         else:
             hidden = ('unknown', id(g))
-        return (labels, hidden, bool(getattr(g, '_version_given', True)), str(g.version))
+        extra = []
+        for k, v in sorted(vars(g).items()):
+            if k in ('_row', '_index', 'metadata', 'column', '_version', '_version_given'):
+                continue
+            extra.append((k, repr(v)[:200]))          # any further hidden attribute (memo, cache) a refactor may add
+        return (labels, hidden, bool(getattr(g, '_version_given', True)), str(g.version), tuple(extra))
 
 
 class C14Quick(GridSpec):
@@ -408,16 +421,16 @@ class C14Thorough(C14Quick):
 class C15Quick(GridSpec):
     prop = 'C15'
     ROOTS = [['fresh']]          # the declared version plays no part in id lookups
-    ROWS = ['E', 'A', 'A2', 'B', 'I7', 'R', 'RD']
+    ROWS = ['E', 'A', 'A2', 'B', 'I7', 'R', 'RD', 'Z0', 'ZE']
     NONDICT = ['n5']
 
 
 class C15Thorough(C15Quick):
-    ROWS = ['E', 'A', 'A2', 'B', 'I7', 'R', 'RD', 'X']
+    ROWS = ['E', 'A', 'A2', 'B', 'I7', 'R', 'RD', 'Z0', 'ZE', 'X']
 
 
 SLICES = [(None, None, None), (0, 1, None), (1, None, None), (None, None, -1), (0, 2, None)]
-PAIR_OPS = [('append', 'A'), ('append', 'B'), ('append', 'I7'), ('append', 'R'), ('insert', 0, 'A2'), ('insert', 0, 'B'), ('delitem', 0), ('delitem', -1),
+PAIR_OPS = [('append', 'A'), ('append', 'B'), ('append', 'I7'), ('append', 'R'), ('append', 'Z0'), ('insert', 0, 'A2'), ('insert', 0, 'B'), ('delitem', 0), ('delitem', -1),
             ('setitem', 0, 'B'), ('setitem', 0, 'E'), ('extend', ['B', 'I7']), ('reverse',), ('clear',), ('pop_last',)]
 
 
